@@ -377,7 +377,9 @@ func docSpecs(ctx *core.Ctx) []docSpec {
 	s := ctx.Seed * 1000
 	// every body kind except EOL+"endstream" (see Trace_SeqScan) and the big ones
 	// and, where /Length can be an indirect object (non-seekable sink), bodies ending in a bare CR
-	plainNS := []shared.BodyKind{shared.BodyPlain, shared.BodyBinary, shared.BodyEOL, shared.BodyEndstream, shared.BodyEndobj, shared.BodyMidHeader, shared.BodyEmpty}
+	// bodies with lines that start with a trailer keyword are in every document
+	plainNS := []shared.BodyKind{shared.BodyPlain, shared.BodyBinary, shared.BodyEOL, shared.BodyEndstream, shared.BodyEndobj, shared.BodyMidHeader, shared.BodyEmpty,
+		shared.BodyTrailerLine, shared.BodyXrefLine, shared.BodyStartxrefLine, shared.BodyEOFLine}
 	plain := append([]shared.BodyKind{shared.BodyCR}, plainNS...)
 	specs := []docSpec{
 		{s + 1, shared.DocOptions{Version: pdf.V1_4, Seekable: true, Objects: 13, Bodies: plain}, "table-1.4"},
@@ -388,6 +390,10 @@ func docSpecs(ctx *core.Ctx) []docSpec {
 	}
 	// a non-seekable sink and bodies over 1 kB: /Length is an indirect object written after the stream
 	specs = append(specs, docSpec{s + 6, shared.DocOptions{Version: pdf.V1_4, Seekable: false, Objects: 5, Bodies: []shared.BodyKind{shared.BodyBig, shared.BodyPlain}}, "table-1.4-noseek-indirect-length"})
+	// every stream has a line starting with trailer / xref / startxref / %%EOF and is followed by a small object
+	specs = append(specs,
+		docSpec{s + 7, shared.DocOptions{Version: pdf.V1_4, Seekable: true, Objects: 12, MinStreams: 1, MaxBody: 60, Bodies: shared.MarkerBodies}, "table-1.4-marker-lines"},
+		docSpec{s + 8, shared.DocOptions{Version: pdf.V1_7, XRefStream: true, Seekable: false, Objects: 12, MinStreams: 1, MaxBody: 60, Bodies: shared.MarkerBodies, Info: true}, "xrefstream-1.7-marker-lines"})
 	if ctx.Thorough() {
 		for k := int64(0); k < 6; k++ {
 			specs = append(specs,
@@ -478,7 +484,7 @@ func run(ctx *core.Ctx) error {
 		"distinct = distinct (cut class x object kind) pairs, the cut class being the token class/context and at/in position of the crash point inside the object it splits"
 	ctx.Ev.Assume("TLC evaluates SeqScan.tla faithfully; the Ref operators state property C20")
 	ctx.Ev.Assume("ground truth: offsets from the sink while writing and an independent byte search for `N G obj`/`endobj`; values recorded while writing; for objects the Writer makes itself (catalog, info, xref stream) the independent tokenizer of shared/docgen_scan.go")
-	ctx.Ev.Assume("documents: no object streams; stream bodies and strings free of line-initial object headers and trailer keywords; stream bodies free of EOL+\"endstream\" (a prefix ending inside such a body is a well-formed shorter object for a reader that tolerates a wrong /Length); where /Length can be indirect (non-seekable sink) no body ends in a bare CR (once the length object is cut off, CR + the Writer's LF cannot be told from a CR LF marker); unencrypted")
+	ctx.Ev.Assume("documents: no object streams; stream bodies and strings free of line-initial object headers (lines starting with trailer / xref / startxref / %%EOF do occur in stream bodies); stream bodies free of EOL+\"endstream\" (a prefix ending inside such a body is a well-formed shorter object for a reader that tolerates a wrong /Length); where /Length can be indirect (non-seekable sink) no body ends in a bare CR (once the length object is cut off, CR + the Writer's LF cannot be told from a CR LF marker); unencrypted")
 
 	cfg := "MC_SeqScan_q.cfg"
 	if ctx.Thorough() {
